@@ -180,3 +180,14 @@ Example C01_locator_blind_spot :
   r1 = Ok tt /\ r2 = Ok tt /\
   match r3 with Ok data => open data = Err (EUnsupported MMultiDisk) | _ => False end.
 Proof. vm_compute. repeat split. Qed.
+
+(* ---------- not only on a sink that takes every write whole.
+   The same program over ANY sink that splits writes arbitrarily (and does not fail) succeeds as well and finish()
+   returns the very same bytes: every conclusion of C01_stored_roundtrip about [data] therefore holds for such sinks
+   (writer simulation, Proofs/ChunkSim.v). *)
+From ZipV Require Import Proofs.ShortWrites Proofs.RoundtripChunked.
+Theorem C01_roundtrip_any_chunking : forall enc crc es plan s' s3 data,
+  nofail plan -> write_entries enc crc (new_writer []) es = (s', Ok tt) -> finish enc crc s' = (s3, Ok data) ->
+  exists sp s3p, write_entries enc crc (new_writer plan) es = (sp, Ok tt) /\ finish enc crc sp = (s3p, Ok data).
+Proof. exact roundtrip_any_chunking. Qed.
+Print Assumptions C01_roundtrip_any_chunking.
